@@ -436,9 +436,20 @@ def run_property(mod, tier, seed, only_sub=None, jobs=16):
     ctx = mp.get_context("fork")
     results = []
     if tasks:
+        # every shard stops by itself when its wall budget is used up; a shard that does not come back long after that is stuck
+        # inside one call into the library (non-termination), which no oracle can report: the parent gives up on the run instead
+        limit = 4 * max(s.budget_s[tier] for s in subs) + 300
+        t_start = time.time()
         with ctx.Pool(min(jobs, len(tasks)), maxtasksperchild=1) as pool:
-            for r in pool.imap_unordered(run_shard, tasks, chunksize=1):
-                results.append(r)
+            it = pool.imap_unordered(run_shard, tasks, chunksize=1)
+            for _ in range(len(tasks)):
+                try:
+                    results.append(it.next(timeout=max(1.0, limit - (time.time() - t_start))))
+                except mp.TimeoutError:
+                    pool.terminate()
+                    harness_errors.append(f"{len(tasks) - len(results)} shard(s) did not return within {limit} s: a call into the library does not terminate "
+                                          f"(sub-checks still running: {sorted({t[1] for t in tasks} - {r['sub'] for r in results}) or 'shared'})")
+                    break
 
     per_sub = {}
     for r in results:
